@@ -48,7 +48,9 @@ def run_impl(lf, pr, iterative):
     wuv = None if pr['wuv'] is None else _typed(pr['wuv'], wdt)
     try:
         if iterative:
-            fit = lf.iter_linear_fit(xy, uv, wxy, wuv, fitgeom=pr['geom'], nclip=0)
+            # "no clipping" can be requested in several documented ways: nclip=0 (any sigma, also None) or nclip=None
+            kw = [dict(nclip=0), dict(nclip=0, sigma=None), dict(nclip=None, sigma=None), dict(nclip=None)][len(xy) % 4]
+            fit = lf.iter_linear_fit(xy, uv, wxy, wuv, fitgeom=pr['geom'], **kw)
         else:
             fit = call_single(lf, pr['geom'], xy, uv, wxy, wuv)
         return 0, effective(fit, iterative), fit
